@@ -107,6 +107,46 @@ func BatchOrderScenario(seed int64) (fails []string, line string) {
 	}
 	if len(got) != len(all) {
 		fails = append(fails, fmt.Sprintf("backend %s restart: after Sync and a shutdown a fresh history finds %d records, %d had been synced and shown by queries (write batch 1, %d mutations in a burst)", which, len(got), len(all), n))
+		return fails, line
+	}
+	// the restarted process goes on tracking (a fresh machine: its clocks start over); range queries
+	// over the whole log answer what a by-hand filter of the full listing gives
+	for i, k := 0, 3+r.Intn(8); i < k; i++ {
+		m2.Add1("A", nil)
+	}
+	if err := mem2.Sync(); err != nil {
+		return []string{"backend " + which + " restart: sync failed, " + err.Error()}, line
+	}
+	full, err := mem2.FindLatest(ctx, false, 0, amhist.Query{})
+	if err != nil || len(full) == 0 {
+		return fails, line
+	}
+	var maxSum uint64
+	for _, rec := range full {
+		if rec.Time.MTimeSum > maxSum {
+			maxSum = rec.Time.MTimeSum
+		}
+	}
+	for q := 0; q < 4; q++ {
+		lo := uint64(1 + r.Intn(int(maxSum))) // (0 = no condition)
+		hi := lo + uint64(r.Intn(int(maxSum)+2))
+		res, err := mem2.FindLatest(ctx, false, 0, amhist.Query{Start: amhist.ConditionTime{MTimeSum: lo}, End: amhist.ConditionTime{MTimeSum: hi}})
+		if err != nil {
+			continue
+		}
+		var want, have []uint64
+		for _, rec := range full {
+			if rec.Time.MTimeSum >= lo && rec.Time.MTimeSum <= hi {
+				want = append(want, rec.Time.MTimeSum)
+			}
+		}
+		for _, rec := range res {
+			have = append(have, rec.Time.MTimeSum)
+		}
+		if fmt.Sprint(want) != fmt.Sprint(have) {
+			fails = append(fails, fmt.Sprintf("backend %s restart: the query MTimeSum in [%d,%d] over a log continued by a restarted process returns sums %v, filtering the full listing by hand gives %v", which, lo, hi, have, want))
+			break
+		}
 	}
 	return fails, line
 }
